@@ -57,7 +57,8 @@ def candidates():
                 continue
             if have_cov and n in unc:
                 continue
-            code = line.split("//")[0]
+            code = re.sub(r"/\*.*?\*/", lambda m: " " * len(m.group(0)), line.split("//")[0])
+            code = code.split("/*")[0]
             for k, (pat, rep) in enumerate(OPS):
                 for m in re.finditer(pat, code):
                     if '"' in code[:m.start()] and code[:m.start()].count('"') % 2 == 1:
